@@ -17,7 +17,7 @@ from typing import Any, Dict, List, Optional, Tuple
 
 from hypothesis import strategies as st
 
-from .. import drive_api, gen, model
+from .. import drive_api, e2e, gen, model
 from ..runner import Outcome, case_hash, enter_scratch, jsonable, leave_scratch
 
 ID = "C05"
@@ -85,7 +85,7 @@ def make_case(country: str, ltd: Optional[int], lots: List[Tuple[int, int]], sel
 
 
 def budget(tier: str) -> Dict[str, Any]:
-    return {"shards": 16, "examples": 500 if tier == "quick" else 10000}
+    return {"shards": 16, "examples": 500 if tier == "quick" else 10000, "examples2": 10 if tier == "quick" else 150}
 
 
 @st.composite
@@ -129,24 +129,17 @@ def strategy(tier: str) -> Any:
     return strategy_case()
 
 
-def evaluate(case: Dict[str, Any]) -> Outcome:
-    out = Outcome()
-    txs = model.make_txs(case["rows"])
+def long_short_violations(out: Outcome, txs: List[model.Tx], fractions: List[Dict[str, Any]], country: str, long_term_days: Optional[int]) -> None:
     by_row = {t.row: t for t in txs}
-    period = period_of(case["country"], case.get("long_term_days"))
-    out.classes.add(f"country_{case['country']}" + (f"_{case['long_term_days']}" if case.get("long_term_days") is not None else ""))
-    dump = drive_api.run_case(case)
-    if not dump["ok"]:
-        out.fail("valid_history_rejected", f"{dump['error_type']}: {dump['error'][:300]}")
-        return out
+    period = period_of(country, long_term_days)
     per_event: Dict[int, set] = {}
-    for idx, fraction in enumerate(dump["fractions"]):
+    for idx, fraction in enumerate(fractions):
         event = by_row[fraction["ev"]]
         if fraction["lot"] is None:
             out.classes.add("income_event")
             if fraction["long"]:
                 out.fail("income_long_term", f"income event row {event.row} reported as long-term")
-                return out
+                return
             continue
         lot = by_row[fraction["lot"]]
         per_event.setdefault(event.row, set()).add(lot.row)
@@ -165,17 +158,43 @@ def evaluate(case: Dict[str, Any]) -> Outcome:
             out.fail(
                 "long_short_flag",
                 f"fraction {idx}: lot row {lot.row} acquired {lot.ts}, disposed {event.ts} (row {event.row}): elapsed {elapsed} us = "
-                f"{elapsed // DAY} whole days; threshold {period} days for {case['country']}"
-                f"{'/' + str(case.get('long_term_days')) if case.get('long_term_days') is not None else ''} -> expected "
+                f"{elapsed // DAY} whole days; threshold {period} days for {country}"
+                f"{'/' + str(long_term_days) if long_term_days is not None else ''} -> expected "
                 f"{'LONG' if expected else 'SHORT'}, reported {'LONG' if fraction['long'] else 'SHORT'}",
             )
-            return out
+            return
     if any(len(v) >= 2 for v in per_event.values()):
         out.nontrivial = True
         out.classes.add("disposal_over_several_lots")
-    longs = {f["long"] for f in dump["fractions"] if f["lot"] is not None}
+    longs = {f["long"] for f in fractions if f["lot"] is not None}
     if len(longs) == 2:
         out.classes.add("mixed_long_and_short")
+
+
+E2E_HIST = gen.GenCfg(min_steps=4, max_steps=14, max_exchanges=2, max_holders=2, long_gaps=True, bulk_prob=0.02)
+
+
+def strategy2(tier: str) -> Any:
+    """End-to-end tier (rp2v/e2e.py): LONG / SHORT read from the full report's detail rows of real runs of every entry point
+    (crypto-fee acquisitions and their re-created timestamps included), judged against the generated instants."""
+    return e2e.file_strategy(E2E_HIST, countries=("us", "us", "generic", "generic", "ie", "jp"))
+
+
+def minimize(case: Dict[str, Any], clause: str) -> Dict[str, Any]:
+    return e2e.minimize(case, clause, evaluate) if case.get("e2e") else case
+
+
+def evaluate(case: Dict[str, Any]) -> Outcome:
+    if case.get("e2e"):
+        return e2e.evaluate_assets(case, "c05e", lambda out, asset, txs, dump, schedule: long_short_violations(out, txs, dump["fractions"], case["country"], case.get("long_term_days")))
+    out = Outcome()
+    txs = model.make_txs(case["rows"])
+    out.classes.add(f"country_{case['country']}" + (f"_{case['long_term_days']}" if case.get("long_term_days") is not None else ""))
+    dump = drive_api.run_case(case)
+    if not dump["ok"]:
+        out.fail("valid_history_rejected", f"{dump['error_type']}: {dump['error'][:300]}")
+        return out
+    long_short_violations(out, txs, dump["fractions"], case["country"], case.get("long_term_days"))
     return out
 
 
